@@ -563,4 +563,159 @@ example : IsMapping (autOfX X.mappingTable X.mappingTimeouts 1 7) ∧ IsSession 
 
 example : AutOk (autOfX X.mappingTable X.mappingTimeouts 1 7) := ⟨by decide +kernel, by decide +kernel, by decide⟩
 
+/-! ## The session table: find / add / remove as translated (pointer results are slot indices) -/
+
+
+theorem natCast_beq (x y : Nat) : ((x : Int) == (y : Int)) = (x == y) := by
+  by_cases h : x = y
+  · simp [h]
+  · have h1 : ((x : Int) == (y : Int)) = false := by
+      rw [beq_eq_false_iff_ne]; exact_mod_cast h
+    have h2 : (x == y) = false := by rw [beq_eq_false_iff_ne]; exact h
+    rw [h1, h2]
+
+theorem mac_equal_eq (e : T.Env) (a b : List Nat) (ha : a.length = 6) (hb : b.length = 6) :
+    (T.mac_equal e a b).ret = (a == b) := by
+  match a, ha with
+  | [a0, a1, a2, a3, a4, a5], _ =>
+    match b, hb with
+    | [b0, b1, b2, b3, b4, b5], _ =>
+      simp only [T.mac_equal, List.getD_cons_zero, List.getD_cons_succ, natCast_beq]
+      rw [Bool.eq_iff_iff]
+      simp [and_assoc]
+
+theorem mac_copy_eq (e : T.Env) (d s : List Nat) (hd : d.length = 6) (hs : s.length = 6) :
+    (T.mac_copy e d s).dst = s := by
+  match d, hd with
+  | [d0, d1, d2, d3, d4, d5], _ =>
+    match s, hs with
+    | [s0, s1, s2, s3, s4, s5], _ => simp [T.mac_copy]
+
+
+
+/-- the first index below `n` at which `q` holds: what a `for` loop that leaves at its first hit computes -/
+def firstBelow (q : Nat → Bool) : Nat → Option Nat
+  | 0 => none
+  | n + 1 => match firstBelow q n with
+    | some j => some j
+    | none => if q n then some n else none
+
+theorem firstBelow_findIdx {α : Type} (p : α → Bool) (l : List α) (d : α) :
+    ∀ n, n ≤ l.length → firstBelow (fun k => p (l.getD k d)) n =
+      (if (l.take n).findIdx p < n then some ((l.take n).findIdx p) else none) := by
+  intro n
+  induction n with
+  | zero => intro _; simp [firstBelow]
+  | succ n ih =>
+    intro hn
+    have hlt : n < l.length := by omega
+    have hlen : (l.take n).length = n := by simp; omega
+    rw [firstBelow, ih (by omega), List.take_add_one, List.getElem?_eq_getElem hlt]
+    simp only [Option.toList_some, List.findIdx_append, hlen]
+    have hg : l.getD n d = l[n] := by simp [List.getD, List.getElem?_eq_getElem hlt]
+    by_cases h1 : List.findIdx p (List.take n l) < n
+    · have h1' : List.findIdx p (List.take n l) < (List.take n l).length := by omega
+      simp only [h1, h1', if_true]
+      have : List.findIdx p (List.take n l) < n + 1 := by omega
+      simp only [this, if_true]
+    · have h1' : ¬ List.findIdx p (List.take n l) < (List.take n l).length := by omega
+      simp only [h1, h1', if_false, hg]
+      by_cases h2 : p l[n] = true
+      · simp [h2, List.findIdx_cons]
+      · simp [h2, List.findIdx_cons]; omega
+
+theorem firstBelow_full {α : Type} (p : α → Bool) (l : List α) (d : α) :
+    firstBelow (fun k => p (l.getD k d)) l.length = (if l.findIdx p < l.length then some (l.findIdx p) else none) := by
+  have := firstBelow_findIdx p l d l.length (Nat.le_refl _)
+  simpa using this
+
+
+
+structure TblOk (t : T.session_table) : Prop where
+  hlen : t.entries.length = 16
+  hmac : ∀ x ∈ t.entries, x.mapper_mac.length = 6
+
+/-- the C condition `entry->valid && mac_equal(entry->mapper_mac, mac) && entry->generation == generation` -/
+def cMatch (e : T.Env) (mac : List Nat) (gen : Nat) (x : T.session_entry) : Bool :=
+  (x.valid && (T.mac_equal e x.mapper_mac mac).ret) && ((x.generation : Int) == (gen : Int))
+
+theorem cMatch_eq (e : T.Env) (mac : List Nat) (gen : Nat) (x : T.session_entry) (hx : x.mapper_mac.length = 6) (hm : mac.length = 6) :
+    cMatch e mac gen x = (entryOfC x).matches mac gen := by
+  unfold cMatch Entry.matches
+  rw [mac_equal_eq e _ _ hx hm, natCast_beq]; rfl
+
+theorem getD_zero_mac (t : T.session_table) (h : TblOk t) (k : Nat) : (t.entries.getD k T.session_entry.zero).mapper_mac.length = 6 := by
+  by_cases hk : k < t.entries.length
+  · simp only [List.getD, List.getElem?_eq_getElem hk, Option.getD_some]; exact h.hmac _ (List.getElem_mem hk)
+  · have hk' : t.entries.length ≤ k := by omega
+    simp [List.getD, List.getElem?_eq_none hk', T.session_entry.zero]
+
+theorem getD_map_entry (l : List T.session_entry) (k : Nat) :
+    (l.map entryOfC).getD k (entryOfC T.session_entry.zero) = entryOfC (l.getD k T.session_entry.zero) := by
+  by_cases hk : k < l.length
+  · simp [List.getD, List.getElem?_eq_getElem hk]
+  · have hk' : l.length ≤ k := by omega
+    simp [List.getD, List.getElem?_eq_none hk']
+
+def findQ (e : T.Env) (mac : List Nat) (gen : Nat) (t : T.session_table) (k : Nat) : Bool :=
+  cMatch e mac gen (t.entries.getD k T.session_entry.zero)
+
+theorem firstBelow_succ (q : Nat → Bool) (n : Nat) :
+    firstBelow q (n + 1) = (match firstBelow q n with | some j => some j | none => if q n then some n else none) := rfl
+
+theorem findQ_full (e : T.Env) (t : T.session_table) (mac : List Nat) (gen : Nat) (ht : TblOk t) (hm : mac.length = 6) :
+    firstBelow (findQ e mac gen t) 16 = (tableOfC t).find mac gen := by
+  have hq : findQ e mac gen t =
+      (fun k => (fun x => Entry.matches x mac gen) ((t.entries.map entryOfC).getD k (entryOfC T.session_entry.zero))) := by
+    funext k; unfold findQ; rw [getD_map_entry, cMatch_eq e mac gen _ (getD_zero_mac t ht k) hm]
+  have hfull := firstBelow_full (fun x => Entry.matches x mac gen) (t.entries.map entryOfC) (entryOfC T.session_entry.zero)
+  have h16 : (t.entries.map entryOfC).length = 16 := by simp [ht.hlen]
+  rw [h16] at hfull
+  rw [hq, hfull]
+  simp only [Table.find, tableOfC, h16]
+
+theorem session_table_find_eq (e : T.Env) (t : T.session_table) (mac : List Nat) (gen seq : Nat) (ht : TblOk t) (hm : mac.length = 6) :
+    (T.session_table_find e t mac gen seq).ret_idx = (tableOfC t).find mac gen ∧ (T.session_table_find e t mac gen seq).table = t := by
+  unfold T.session_table_find
+  have hinv := loopRange_inv (fun i (s : T.session_table_find.S) =>
+      s.table = t ∧ s.mapper_mac = mac ∧ s.generation = gen ∧ s.brk = false ∧
+      s.ret_idx = firstBelow (findQ e mac gen t) i ∧ s.done = (firstBelow (findQ e mac gen t) i).isSome)
+    16 (T.session_table_find.loop1 e) 16 0 { table := t, mapper_mac := mac, generation := gen, seq := seq } (by omega)
+    ⟨rfl, rfl, rfl, rfl, rfl, rfl⟩
+    (by
+      intro i s _ _ ⟨p1, p2, p3, p4, p5, p6⟩
+      unfold T.session_table_find.loop1
+      rw [firstBelow_succ]
+      cases hfb : firstBelow (findQ e mac gen t) i with
+      | some j =>
+        rw [hfb] at p5 p6
+        simp only [Option.isSome_some] at p6
+        simp only [p6, Bool.true_or, if_true]
+        exact ⟨p1, p2, p3, p4, p5, by simp [p6]⟩
+      | none =>
+        rw [hfb] at p5 p6
+        simp only [Option.isSome_none] at p6
+        simp only [p6, p4, Bool.or_self, Bool.false_eq_true, if_false, p1, p2, p3]
+        have hc : ((((t.entries.getD i T.session_entry.zero).valid && (T.mac_equal e (t.entries.getD i T.session_entry.zero).mapper_mac mac).ret) &&
+            (((t.entries.getD i T.session_entry.zero).generation : Int) == (gen : Int)))) = findQ e mac gen t i := rfl
+        rw [hc]
+        by_cases hq : findQ e mac gen t i = true
+        · simp [hq]
+        · have hq' : findQ e mac gen t i = false := by simpa using hq
+          simp [hq', p4, p5, p6])
+  simp only []
+  generalize CSem.loopRange 0 16 (T.session_table_find.loop1 e) { table := t, mapper_mac := mac, generation := gen, seq := seq } = L at hinv ⊢
+  obtain ⟨l1, _, _, l4, l5, l6⟩ := hinv
+  rw [findQ_full e t mac gen ht hm] at l5 l6
+  by_cases hd : L.done = true
+  · simp only [hd, Bool.true_or, if_true]; exact ⟨l5, l1⟩
+  · have hd' : L.done = false := by simpa using hd
+    simp only [hd', Bool.or_self, Bool.false_eq_true, if_false]
+    rw [hd'] at l6
+    refine ⟨?_, l1⟩
+    cases hf : (tableOfC t).find mac gen with
+    | none => rfl
+    | some j => rw [hf] at l6; simp at l6
+
+
 end LLTD.TEq
